@@ -424,7 +424,7 @@ func (it *interp) rule(r *gspec.Rule, off int) (any, int, bool) {
 		m = map[int]int{}
 		it.active[r.Name] = m
 	}
-	if m[off] > 0 && r.LR == nil && it.lrVia(r) == nil {
+	if m[off] > 0 && r.LR == nil {
 		it.st.ReentrySame = true
 		it.st.ReentryRule = r.Name
 		// unbounded recursion in a real parser; the reference stops here
@@ -456,16 +456,6 @@ func (it *interp) rule(r *gspec.Rule, off int) (any, int, bool) {
 	return v, end, ok
 }
 
-// lrVia returns the LR entry rule whose indirect cycle passes through r.
-func (it *interp) lrVia(r *gspec.Rule) *gspec.Rule {
-	for _, x := range it.g.Rules {
-		if x.LR != nil && x.LR.Via == r.Name {
-			return x
-		}
-	}
-	return nil
-}
-
 // lrRule evaluates A <- A t1 / ... / A tn / b1 / ... / bm by its denotation: ordered
 // choice of the bases, then a greedy loop of the ordered choice of the tails with the
 // recursive reference bound to the result so far.
@@ -482,19 +472,10 @@ func (it *interp) lrRule(r *gspec.Rule, off int) (any, int, bool) {
 	defer func() { it.lrSeed[r.Name] = saved }()
 
 	alts := r.Expr.Sub
-	evalAlt := func(i int) (any, int, bool) {
-		it.step(r.Expr, off) // the rule body (choice) is evaluated once per attempt
-		snap := it.snapshot()
-		env := map[string]any{}
-		v, end, ok := it.eval(alts[i], off, env)
-		if !ok {
-			it.restoreState(snap, "choice")
-		}
-		return v, end, ok
-	}
-	_ = evalAlt
 
 	// bases (the recursive reference fails: seed = failure)
+	errEntry := len(it.errs)
+	stEntry := it.snapshot()
 	it.lrSeed[r.Name] = &lrSeed{start: off, end: -1}
 	var (
 		val any
@@ -513,6 +494,10 @@ func (it *interp) lrRule(r *gspec.Rule, off int) (any, int, bool) {
 		it.restoreState(snap, "choice")
 	}
 	if !ok {
+		// pinned by probe: an invocation that fails outright goes through the same exit as the
+		// final non-extending attempt - the errors and state changes it produced are dropped
+		it.errs = it.errs[:errEntry]
+		it.state = stEntry
 		return nil, off, false
 	}
 	for {
